@@ -59,6 +59,28 @@ def check(ctx):
     its = [M.call_name(t) for bb, t in tp.calls(r"Iterator>::(skip|take|filter|step_by|rev|skip_while|take_while)")]
     ctx.ob("C15.d", "patterns:all-patterns-visited", not its, "iterator adapters: %s" % its, tp.loc())
 
+    ps_ = F.fn(r"parser::parse_regex_syntax$")
+    ctx.analysed_fn(ps_)
+    from .common import LogModel
+    ex, paths = run_fn(ps_, F, LogModel())
+    seen_p = set()
+    for p in ret_paths(paths):
+        pc = p.calls(r"ast::parse::Parser::parse$")
+        r = p.end[1]
+        if len(pc) != 1:
+            ctx.ob("C15.d", "parser:one-parse", False, "%d parse calls" % len(pc), ps_.loc())
+            continue
+        ok_in = S.fstr(ex.deref_val(p, pc[0][3][1])) in ("input", "*input")
+        ctx.ob("C15.d", "parser:parses-the-given-string", ok_in, "Parser::parse(%s)" % S.fstr(pc[0][3][1]), ps_.loc())
+        v = variant_of(ex, p, pc[0][4])
+        if v == "Err":
+            seen_p.add("err")
+            ctx.ob("C15.d", "parser:syntax-error-is-returned", r[0] == "adt" and r[2] == "Err" and S.mentions(r, lambda x: x == ("field", ("downcast", pc[0][4], "Err"), "0")), "parse Err -> %s" % S.fstr(r)[:80], ps_.loc())
+        elif v == "Ok":
+            seen_p.add("ok")
+            ctx.ob("C15.d", "parser:returns-the-parsed-ast", r[0] == "adt" and r[2] == "Ok" and r[3][0] == ("field", ("downcast", pc[0][4], "Ok"), "0"), "parse Ok -> %s" % S.fstr(r)[:80], ps_.loc())
+    ctx.ob("C15.d", "parser:both-outcomes", seen_p == {"err", "ok"}, "outcomes %s" % sorted(seen_p), ps_.loc())
+
     tl = F.fn(r"CompiledLookahead::try_from_lookahead$")
     ctx.analysed_fn(tl)
     ex, paths = run_fn(tl, F, BaseModel())
